@@ -100,6 +100,40 @@ func main() {
 		if !*keep {
 			os.RemoveAll(e.scratch)
 		}
+	case "sites":
+		// list the anchor ordinals (loops, ifs, returns) of a function
+		e, err := LoadEngine(repo)
+		die(err)
+		for k, f := range e.funcs {
+			if shortName(k) == os.Args[2] || strings.HasSuffix(k, "."+os.Args[2]) {
+				run := &FuncRun{eng: e, fn: f, name: shortName(k)}
+				fr := newFrame(run, f, 0, "", nil)
+				fmt.Println(shortName(k))
+				for _, li := range fr.loopList {
+					fmt.Printf("  loop %d at %s\n", li.ordinal, posString(e.prog, loopPos(li)))
+				}
+				type ent struct {
+					n   int
+					pos string
+					txt string
+				}
+				var ifs, rets []ent
+				for ins, n := range fr.ifOrd {
+					ifs = append(ifs, ent{n, posString(e.prog, condPos(ins.Cond)), ins.Cond.String()})
+				}
+				for ins, n := range fr.ordinals["return"] {
+					rets = append(rets, ent{n, posString(e.prog, ins.Pos()), ""})
+				}
+				sort.Slice(ifs, func(i, j int) bool { return ifs[i].n < ifs[j].n })
+				sort.Slice(rets, func(i, j int) bool { return rets[i].n < rets[j].n })
+				for _, x := range ifs {
+					fmt.Printf("  branch %d at %s  (%s)\n", x.n, x.pos, x.txt)
+				}
+				for _, x := range rets {
+					fmt.Printf("  return #%d at %s\n", x.n, x.pos)
+				}
+			}
+		}
 	case "selftest":
 		os.Exit(runSelftest())
 	case "check":
